@@ -1,4 +1,5 @@
 import Proofs.C01Mux
+import Proofs.C01Monitor
 /-!
 # C01 — every response reaches the request that caused it, and only that one (property theorems)
 
@@ -36,6 +37,20 @@ theorem C01_ids_in_range (cap : Nat) (as : List Act) (st : St) (h : run (init ca
   have := (inv_run as _ st (inv_init cap) h).own_pc s c ho
   exact ⟨this.2.1, this.2.2.1⟩
 
+/-- Soundness of the observation monitor that ties this model to the code: the observable projection
+    (`req` / `resp` seen by the server, `got` seen by the callers) of EVERY run of the machine is accepted by
+    `Mon` — the monitor that `vdrv C01` runs over the observations of real connections never rejects a
+    behaviour of the model. Hence a `reject:` on a real run is never an artefact of the monitor. -/
+theorem C01_monitor_sound (cap : Nat) (as : List Act) (st : St) (h : run (init cap) as = some st) :
+    (Mon.run (Mon.init cap) (trace (init cap) as)).bad = none :=
+  (sim_run as (init cap) st (Mon.init cap) (inv_init cap) (sim_init cap) h).ok
+
+/-- … and the monitor's bookkeeping is exact: after the run it holds an unanswered request on `s` with
+    token `t` iff the server side still holds the unanswered request of call `t` on `s` -/
+theorem C01_monitor_exact (cap : Nat) (as : List Act) (st : St) (h : run (init cap) as = some st) (s t : Nat) :
+    (Mon.run (Mon.init cap) (trace (init cap) as)).lookup s = some (t, false) ↔ st.wire s = .pending t :=
+  (sim_run as (init cap) st (Mon.init cap) (inv_init cap) (sim_init cap) h).pend s t
+
 /-- non-vacuity: a history with a timeout, a reuse attempt and a late reply — caller 1 times out on id 5,
     caller 2 cannot get id 5, the late answer for caller 1 is released, then caller 2 gets id 5 and its
     own response. -/
@@ -46,6 +61,9 @@ def lateReplyHistory : List Act :=
 example : ∃ st, run (init 128) lateReplyHistory = some st ∧
     st.pc 1 = .done .timeout ∧ st.pc 2 = .done (.resp 2) ∧ st.pc 3 = .done (.resp 3) ∧ st.owner 5 = none := by
   refine ⟨_, rfl, ?_, ?_, ?_, ?_⟩ <;> decide
+
+example : trace (init 128) lateReplyHistory =
+    [.req 5 1, .req 6 2, .resp 5 1, .req 5 3, .resp 5 3, .got 3 3, .resp 6 2, .got 2 2] := by decide
 
 example : (do let st ← run (init 128) [.acquire 1 5, .wrote 1, .timeout 1]; step st (.acquire 2 5)).isNone = true := by
   decide
